@@ -143,16 +143,24 @@ class Check(PropertyCheck):
                   "per order) and view_sorted_by_generated_keys. Tie: after every operation list(view), focus, store order, "
                   "settings ids and the exact signal sequence are compared; genKey and SortKey.le are compared with the real "
                   "generate() values and Python's <= on flows of every type (incl. OPCODE(n), non-ASCII names, missing content).")
-    level_note = ("flows may change without the view being told (`mutate`); for such a flow, until its next add/update or a "
-                  "re-filter, only `listed => stored, once` is claimed and it is left out of the sortedness claim. With ties the "
-                  "order among equal keys is the order of (re-)insertion and depends on the history (proved stable only at "
-                  "re-filter / re-order); the statement does not fix it and the oracle does not demand it. trusted: "
-                  "sortedcontainers.SortedListWithKey behaves as a sorted list with bisect_right insertion and key-based lookup "
-                  "(tied differentially, not proved); flowfilter verdicts are evaluated by the real code and fed to the model as "
-                  "data; the state machine sorts naturals that the harness derives order-preservingly from the real keys "
-                  "(view_sorted_by_generated_keys takes that as its hypothesis; the keys themselves and their order are modelled "
-                  "and tied); request.url, format_address and dns size enter genKey as data; list arguments are modelled as the "
-                  "sequence of single-flow operations; duplicate/create/load_file/resolve are not modelled.")
+    level_note = ("ORACLE LENIENCIES (all; each tried by known_selftest on hand-written observations at every run): (a) Skip() "
+                  "only for cases whose operations name a flow index outside the pool (after shrinking); (b) a stored flow that "
+                  "changed behind the view's back (`mutate`) is excused from the membership clause exactly while its current "
+                  "visibility differs from the one the view last evaluated, and from the order clause exactly while its current "
+                  "key differs from the one the view last evaluated — a mutated flow whose value is unchanged is not excused, and "
+                  "`listed => stored, once`, focus, settings and announcements are demanded for every flow; (c) the order among "
+                  "equal keys is not demanded (not in the statement). Every expected value of the oracle (store, visibility, keys, "
+                  "direction, which flows must enter/leave) comes from Check.reference(case): own flows driven by the case's "
+                  "operations, flowfilter and the key generators as references, never the View under test; the harness observes "
+                  "the view only by iteration and attribute reads (no `f in view` / index lookups, which would re-cache keys). "
+                  "The Lean `stale` set is coarser than (b) (any mutate until re-evaluation). With ties the order among equal keys "
+                  "is the order of (re-)insertion and depends on the history (proved stable only at re-filter / re-order). "
+                  "trusted: sortedcontainers.SortedListWithKey behaves as a sorted list with bisect_right insertion and key-based "
+                  "lookup (tied differentially, not proved); flowfilter verdicts are evaluated by the real flowfilter and fed to "
+                  "the model as data; the state machine sorts naturals that the harness derives order-preservingly from the real "
+                  "keys (view_sorted_by_generated_keys takes that as its hypothesis; the keys themselves and their order are "
+                  "modelled and tied); request.url, format_address and dns size enter genKey as data; list arguments are modelled "
+                  "as the sequence of single-flow operations; duplicate/create/load_file/resolve are not modelled.")
     technique = "Lean 4 proof (invariant induction over operation sequences) + differential model-vs-addon correspondence"
     rule = ("a pool of 2-5 flows of types http/tcp/udp/dns; sequences of <=25 operations; every add/update/mutate carries fresh "
             "abstract attributes (timestamp, method/op-code, url/address/name, size, mark, error, response) from small pools so "
@@ -172,6 +180,50 @@ class Check(PropertyCheck):
     def setup(self, tier):
         self.parallel = tier == "thorough"
         self.rank_m, self.rank_u = _rank_tables()
+        self.known_selftest()
+
+    def known_selftest(self):
+        """The oracle's only lenient branch (flows changed behind the view's back) and its input-derived clauses, tried on
+        hand-written observations (no View involved): the correct observation passes, and an observation just outside the
+        excused class is rejected.  AssertionError here ends the run as INFRA."""
+        A = lambda **kw: dict({"t": 1, "m": 0, "u": 0, "z": 1, "mk": 0, "e": 0, "rsp": 0}, **kw)
+        def step(op, view, before, store, sigs, touched, focus="auto", settings=None, rev=False, err=""):
+            return {"op": op, "err": err, "touched": touched, "view": view, "raw": view[::-1] if rev else view, "before": before,
+                    "focus": (view[0] if view else None) if focus == "auto" else focus, "store": store,
+                    "settings": store if settings is None else settings, "sigs": sigs, "rev": rev}
+        def run(ops, steps, want_fail):
+            case = {"pool": ["http", "http"], "ops": ops}
+            self._ref = (None, None)
+            fails = self.oracle(case, {"steps": steps})
+            if want_fail is None:
+                assert not fails, f"selftest: correct observation rejected: {fails}"
+            else:
+                assert any(want_fail in f for f in fails), f"selftest: doctored observation not rejected for `{want_fail}`: {fails}"
+        add2 = [["add", [[0, A(t=1)]]], ["add", [[1, A(t=2)]]]]
+        s_add2 = [step("add", [0], [], [0], ["f", "a0"], [0]), step("add", [0, 1], [0], [0, 1], ["a1"], [1])]
+        # (1) a flow is mutated but its key under the selected order is unchanged: it is NOT excused from the order clause
+        ops = add2 + [["mutate", [[0, A(t=1, z=3, mk=1)]]]]
+        run(ops, s_add2 + [step("mutate", [0, 1], [0, 1], [0, 1], [], [0])], None)
+        run(ops, s_add2 + [step("mutate", [1, 0], [0, 1], [0, 1], [], [0], focus=0)], "not sorted")
+        # … while one whose key did change is excused (both positions pass) — but must stay listed exactly once and stored
+        ops = add2 + [["mutate", [[0, A(t=3)]]]]
+        run(ops, s_add2 + [step("mutate", [0, 1], [0, 1], [0, 1], [], [0])], None)
+        run(ops, s_add2 + [step("mutate", [0, 1, 0], [0, 1], [0, 1], [], [0])], "listed twice")
+        run(ops + [["remove", [0]]], s_add2 + [step("mutate", [0, 1], [0, 1], [0, 1], [], [0]),
+            step("remove", [0, 1], [0, 1], [1], ["s0"], [0], settings=[1])], "not stored")
+        # (2) a flow is mutated but its visibility is unchanged: it is NOT excused from the membership clause
+        ops = [["add", [[0, A()]]], ["filter", 1], ["mutate", [[0, A(z=3)]]]]
+        base = [step("add", [0], [], [0], ["f", "a0"], [0]), step("filter", [], [0], [0], ["f", "R"], [])]
+        run(ops, base + [step("mutate", [], [], [0], [], [0])], None)
+        run(ops, base + [step("mutate", [0], [], [0], [], [0])], "!= matching stored flows")
+        ops = [["add", [[0, A()]]], ["filter", 1], ["mutate", [[0, A(mk=1)]]]]          # visibility changed: excused either way
+        run(ops, base + [step("mutate", [], [], [0], [], [0])], None)
+        # (3) input-derived clauses: the store, the requested direction, the announcements
+        run(add2, [s_add2[0], step("add", [0, 1], [0], [0], ["a1"], [1])], "the operations leave")
+        run(add2 + [["reversed", 1]], s_add2 + [step("reversed", [0, 1], [0, 1], [0, 1], ["R"], [])], "not sorted")
+        run(add2, [s_add2[0], step("add", [0, 1], [0], [0, 1], [], [1])], "add signals")
+        run(add2 + [["update", [[1, A(t=2)]]]], s_add2 + [step("update", [0, 1], [0, 1], [0, 1], [], [1])], "no update signal")
+        self._ref = (None, None)
 
     # ---------------------------------------------------------------- generation
     def gen_attr(self, rng):
@@ -325,7 +377,7 @@ class Check(PropertyCheck):
                     err = "unexpected:" + type(e).__name__
                 steps.append({
                     "op": k, "err": err,
-                    "touched": [x[0] for x in op[1]] if k in ("add", "update", "mutate") else ([op[1]] if k == "setval" else []),
+                    "touched": [x[0] for x in op[1]] if k in ("add", "update", "mutate") else ([op[1]] if k == "setval" else (list(op[1]) if k == "remove" else [])),
                     "view": [byid(f) for f in v], "raw": [byid(f) for f in v._view], "before": before,
                     "focus": byid(v.focus.flow) if v.focus.flow is not None else None,
                     "store": [byid(f) for f in v._store.values()],
@@ -456,6 +508,20 @@ class Check(PropertyCheck):
                     for x in st["touched"]:
                         if x in a and x in b and x not in upds:
                             fails.append(f"{where}: shown flow {x} was updated but no update signal ({sg})")
+                # the same against what the INPUTS say the change must be (flows whose visibility the view could know)
+                prev = ref[n - 1] if n else {"store": [], "live_vis": {}, "seen_vis": {}}
+                for x in dict.fromkeys(st["touched"]):
+                    exc = (x in prev["store"] and prev["live_vis"][x] != prev["seen_vis"][x]) or \
+                          (x in store and rf["live_vis"][x] != rf["seen_vis"][x])
+                    if exc: continue
+                    was = x in prev["store"] and prev["seen_vis"][x]
+                    now = x in store and rf["seen_vis"][x]
+                    if (not was and now) != (x in adds):
+                        fails.append(f"{where}: flow {x} {'enters' if now and not was else 'does not enter'} the view but signals {sg}")
+                    if (was and not now) != (x in rms):
+                        fails.append(f"{where}: flow {x} {'leaves' if was and not now else 'does not leave'} the view but signals {sg}")
+                    if st["op"] in ("update", "setval") and not st["err"] and was and now and x not in upds:
+                        fails.append(f"{where}: listed flow {x} was updated but no update signal ({sg})")
             else:
                 if adds or rms or upds:
                     fails.append(f"{where}: add/remove/update signals {sg} from an operation that adds/removes/updates no flow")
